@@ -90,6 +90,10 @@ def run_traced(case: Dict[str, Any], detail: str, mode: str, tdir: str, pipeline
 
     os.makedirs(tdir, exist_ok=True)
     target = os.path.join(tdir, "trace.ser.jsonl") if mode == "file" else os.path.join(tdir, "traces")
+    if mode == "dir_dotted":
+        # directory mode on an existing directory whose name looks like a file name with a suffix
+        target = os.path.join(tdir, "traces.v1.2")
+        os.makedirs(target, exist_ok=True)
     driver = JsonlTraceDriver(target, detail=detail)
     r = observe.run_real(case, trace=driver, pipeline=pipeline)
     files = []
